@@ -202,7 +202,81 @@ Proof.
 Qed.
 Print Assumptions C12_parent_append_basename_refuted.
 
+(* splitleaf is (parent, basename), so the same law holds for its two results *)
+Theorem C12_splitleaf : forall p,
+  wfp p -> is_nil (suffix_str p) = false -> nodrive [last (p_comps p) []] ->
+  exists q b, splitleaf p = Some (q, b) /\ parent p = Some q /\ b = basename p /\ wfp q /\
+              append q b = Some (set_dir p (is_nil (p_comps p))).
+Proof. exact splitleaf_append. Qed.
+Print Assumptions C12_splitleaf.
+
+(* relpath / append: for well-formed paths under the same non-absolute root - provided that, when q is an ancestor
+   of p, the first component of p below q is not of the form x:... (finding relpath-drive-like) - appending to q
+   the relative path from q to p gives exactly p's root and components.  The directory flag is set iff p is q or
+   an ancestor of q (append derives it from the string), the destdir flag is the one of q. *)
+Theorem C12_relpath_append : forall fl p q,
+  wfp p -> wfp q -> p_root p = p_root q -> root_eqb (p_root p) Absolute = false ->
+  (common_len (p_comps q) (p_comps p) = length (p_comps q) ->
+   nodrive (skipn (common_len (p_comps q) (p_comps p)) (p_comps p))) ->
+  exists s, relpath fl p q [] false = Some s /\
+    append q s = Some {| p_root := p_root p; p_drive := []; p_slashes := 0; p_comps := p_comps p;
+                         p_dir := is_nil (skipn (common_len (p_comps q) (p_comps p)) (p_comps p));
+                         p_destdir := p_destdir q |}.
+Proof. exact relpath_append. Qed.
+Print Assumptions C12_relpath_append.
+
+(* as Python equality sees it (equality compares root, suffix and the destdir flag) *)
+Theorem C12_relpath_append_eq : forall fl p q,
+  wfp p -> wfp q -> p_root p = p_root q -> root_eqb (p_root p) Absolute = false ->
+  p_destdir p = p_destdir q ->
+  (common_len (p_comps q) (p_comps p) = length (p_comps q) ->
+   nodrive (skipn (common_len (p_comps q) (p_comps p)) (p_comps p))) ->
+  exists s r, relpath fl p q [] false = Some s /\ append q s = Some r /\ path_eqb r p = true.
+Proof. exact relpath_append_eq. Qed.
+Print Assumptions C12_relpath_append_eq.
+
+(* an absolute path is its own relative path from anywhere (whatever prefix); appending it to any well-formed path
+   gives it back *)
+Theorem C12_relpath_append_abs : forall fl p q pre,
+  wfp p -> wfp q -> root_eqb (p_root p) Absolute = true ->
+  relpath fl p q pre false = Some (suffix_str p) /\
+  append q (suffix_str p) = Some {| p_root := Absolute; p_drive := []; p_slashes := 1; p_comps := p_comps p;
+                                    p_dir := is_nil (p_comps p); p_destdir := p_destdir q |}.
+Proof. exact relpath_append_abs. Qed.
+Print Assumptions C12_relpath_append_abs.
+
+(* the rpath form (C14): with a non-empty prefix such as $ORIGIN, not ending in a separator, relpath returns the
+   prefix alone when the two paths are the same place, otherwise prefix, separator and the relative path s of
+   C12_relpath_append *)
+Theorem C12_relpath_prefix : forall p q pre loc,
+  wfp p -> wfp q -> p_root p = p_root q -> root_eqb (p_root p) Absolute = false ->
+  is_nil pre = false -> ends_with_slash pre = false ->
+  exists s, relpath Posix p q [] loc = Some s /\
+    relpath Posix p q pre loc = Some (if str_eqb s dot then pre else pre ++ c_slash :: s).
+Proof. exact relpath_prefix. Qed.
+Print Assumptions C12_relpath_prefix.
+
+(* the guard is needed: the relative path a:/y is re-parsed as a drive-prefixed absolute path *)
+Theorem C12_relpath_append_refuted : exists p q r,
+  mk (STR "x/a:/y") (RRoot Srcdir) None None = Some p /\ mk (STR "x") (RRoot Srcdir) None None = Some q /\
+  wfp p /\ wfp q /\ relpath Posix p q [] false = Some (STR "a:/y") /\
+  append q (STR "a:/y") = Some r /\ p_root r = Absolute.
+Proof.
+  do 3 eexists. split; [vm_compute; reflexivity|]. split; [vm_compute; reflexivity|].
+  split; [|split; [|vm_compute; auto]].
+  all: constructor; cbn; try reflexivity; try lia; try discriminate.
+  all: try (apply normalb_ok; vm_compute; reflexivity).
+  all: try (intros _; vm_compute; discriminate).
+Qed.
+Print Assumptions C12_relpath_append_refuted.
+
 (* non-vacuity *)
+Example ex_relpath : exists p q,
+  mk (STR "a/b/c.o") (RRoot Builddir) None None = Some p /\ mk (STR "a/lib/x/") (RRoot Builddir) None None = Some q /\
+  relpath Posix p q [] false = Some (STR "../../b/c.o") /\ append q (STR "../../b/c.o") = Some p /\
+  relpath Posix p q (STR "$ORIGIN") true = Some (STR "$ORIGIN/../../b/c.o") /\
+  relpath Posix q q (STR "$ORIGIN") true = Some (STR "$ORIGIN").
+Proof. do 2 eexists. vm_compute. repeat split. Qed.
 Example ex_parent_append : exists p q,
   mk (STR "a/b.c/") (RRoot Srcdir) None None = Some p /\ parent p = Some q /\ suffix_str q = STR "a" /\
   basename p = STR "b.c" /\ p_dir p = true /\ append q (basename p) = Some (set_dir p false).
